@@ -27,7 +27,7 @@ def run_artifact(target, path, oracles='', timeout=120):
     env['FZ_ORACLES'] = oracles
     t0 = time.time()
     try:
-        p = subprocess.run([os.path.join(fuzz_build_dir(), target), '-timeout=60', '-rss_limit_mb=4096', path], env=env,
+        p = subprocess.run([os.path.join(fuzz_build_dir(), target), '-timeout=60', '-rss_limit_mb=4096', path], env=env, preexec_fn=oracle.big_stack,
                            stdout=subprocess.PIPE, stderr=subprocess.PIPE, timeout=timeout)
         err = p.stderr.decode('latin-1')
         rc = p.returncode
@@ -78,7 +78,7 @@ def campaign(chk, target, runs, max_len, oracles='', seed=1, prop='C01'):
     if os.path.isdir(extra):
         cmd.append(extra)
     t0 = time.time()
-    p = subprocess.run(cmd, env=env, stdout=subprocess.PIPE, stderr=subprocess.PIPE, cwd=wd)
+    p = subprocess.run(cmd, env=env, stdout=subprocess.PIPE, stderr=subprocess.PIPE, cwd=wd, preexec_fn=oracle.big_stack)
     err = p.stderr.decode('latin-1')
     m = re.search(r'fuzzed for (\d+) iterations', err)
     execs = int(m.group(1)) if m else 0
